@@ -60,6 +60,7 @@ Section Main.
 Variable wf : workflow.
 Let T := spec_table wf.
 Hypothesis DOM : c03_aligned wf = true.
+Hypothesis ZLW : zip_len_ok wf = true.
 
 Lemma dom_parts : wf_ok wf = true /\ share_class wf = true.
 Proof. unfold c03_aligned in DOM. apply andb_true_iff in DOM. exact DOM. Qed.
@@ -96,6 +97,8 @@ Proof.
     assert (HeT : nth_error T n = Some e).
     { rewrite Eext. rewrite nth_error_app2 by (unfold n; lia). unfold n. rewrite Nat.sub_diag. reflexivity. }
     destruct dom_parts as [D1 D2].
+    assert (ZL : zip_ok_node nd = true).
+    { unfold zip_len_ok in ZLW. rewrite forallb_forall in ZLW. apply ZLW. eapply nth_error_In. exact Hnd. }
     pose proof (on_nodes_nth wf node_wf n nd e D1 Hnd HeT) as NW.
     pose proof (on_nodes_nth wf _ n nd e D2 Hnd HeT) as SH. cbn beta in SH. fold T in SH.
     assert (Hflt : forall x, In (BUp x) (n_fields nd) -> x < List.length stab) by (intros x Hx; exact (wf_fields_lt n nd Hnd x Hx)).
@@ -113,7 +116,7 @@ Proof.
           intros x y Hx Hy. apply ups_in in Hx. apply ups_in in Hy. destruct Hx as [Hx _], Hy as [Hy _].
           pose proof (Hflt x Hx) as Lx. pose proof (Hflt y Hy) as Ly.
           unfold sep_ok. rewrite (Hpar y Ly). rewrite Eext, !s_faxes_of_app by assumption. reflexivity. }
-        exact (step_ok wf mtab stab n nd TO eq_refl Hnd wf_fields_lt NW SH').
+        exact (step_ok wf mtab stab n nd TO eq_refl Hnd wf_fields_lt NW ZL SH').
       - (* a state and its relay *)
         rewrite EU in SH. destruct (ups stab (n_fields nd)) as [|x [|y [|z l]]] eqn:EUU; try discriminate SH.
         assert (Lx : x < n).
@@ -124,9 +127,9 @@ Proof.
         { intros a b La Lb. unfold relays. rewrite (Hpar a La), (Hpar b Lb). reflexivity. }
         apply orb_true_iff in SH. destruct SH as [SH|SH].
         + rewrite (Hrel x y Lx Ly) in SH.
-          exact (step_relay wf mtab stab n nd TO eq_refl Hnd NW x y (or_introl EUU) SH).
+          exact (step_relay wf mtab stab n nd TO eq_refl Hnd NW ZL x y (or_introl EUU) SH).
         + rewrite (Hrel y x Ly Lx) in SH.
-          exact (step_relay wf mtab stab n nd TO eq_refl Hnd NW y x (or_intror EUU) SH). }
+          exact (step_relay wf mtab stab n nd TO eq_refl Hnd NW ZL y x (or_intror EUU) SH). }
     destruct Hstep' as [me [Hstep EOn]].
     cbn [run_from]. rewrite (proj1 TO). fold n. rewrite Hstep.
     apply (IH (mtab ++ [me]) (stab ++ [e])).
@@ -174,12 +177,27 @@ Proof.
 Qed.
 End Main.
 
-Theorem partial : forall wf, c03_domain wf = true -> model_run wf = Some (spec_run wf).
+Theorem partial : forall wf, c03_domain wf = true -> zip_len_ok wf = true -> model_run wf = Some (spec_run wf).
 Proof.
-  intros wf H. apply aligned. unfold c03_domain in H. unfold c03_aligned.
+  intros wf H Z. apply aligned; [|exact Z]. unfold c03_domain in H. unfold c03_aligned.
   apply andb_true_iff in H. destruct H as [H1 H2]. rewrite H1.
   assert (S : share_class wf = true).
   { unfold share_class, separate_class, on_nodes in *. rewrite forallb_forall in H2. apply forallb_forall.
     intros z Hz. specialize (H2 z Hz). cbn beta in *. unfold sharing_ok. rewrite H2. reflexivity. }
   rewrite S. reflexivity.
+Qed.
+
+(* zip groups, combiner closure, both outputs *)
+Lemma zip_len_normalize wf : zip_len_ok (normalize wf) = zip_len_ok wf.
+Proof.
+  unfold zip_len_ok, normalize. generalize wf at 1. intros w0. induction wf as [|nd wf IH]; [reflexivity|].
+  cbn [map forallb]. rewrite IH. reflexivity.
+Qed.
+Theorem partial2 : forall wf, c03_class2 wf = true -> model_run2 wf = spec_run2 wf.
+Proof.
+  intros wf H. unfold c03_class2 in H.
+  apply andb_true_iff in H. destruct H as [H _]. apply andb_true_iff in H. destruct H as [H _].
+  apply andb_true_iff in H. destruct H as [H1 H2].
+  unfold model_run2, spec_run2. rewrite H2.
+  rewrite (aligned (normalize wf) H1); [reflexivity|]. rewrite zip_len_normalize. exact H2.
 Qed.
